@@ -3,9 +3,11 @@ package c03
 
 import (
 	"fmt"
+	"github.com/scigolib/hdf5/verif/refimpl"
 	"os"
 	"path/filepath"
 	"strings"
+	"sync"
 	"testing"
 
 	"github.com/scigolib/hdf5/verif/hist"
@@ -78,7 +80,16 @@ func gen(t *rapid.T) Case {
 			}
 			objects = append(objects, path)
 		case "dataset":
-			op = hist.Op{K: "dataset", Path: path, D: &hist.DSpec{Type: "i32", Dims: []uint64{2}}}
+			d := &hist.DSpec{Type: "i32", Dims: []uint64{2}}
+			if rapid.IntRange(0, 7).Draw(t, "fat") == 0 {
+				// a dataspace of high rank makes an object header that is nearly full from the start: what a later link to
+				// the object adds to it may no longer fit
+				d.Dims = nil
+				for k, r := 0, rapid.IntRange(18, 30).Draw(t, "rank"); k < r; k++ {
+					d.Dims = append(d.Dims, 1)
+				}
+			}
+			op = hist.Op{K: "dataset", Path: path, D: d}
 			objects = append(objects, path)
 		case "hard":
 			tgt := "/missing"
@@ -113,7 +124,7 @@ func gen(t *rapid.T) Case {
 			case r <= 5 && len(objects) > 0:
 				tgt = objects[rapid.IntRange(0, len(objects)-1).Draw(t, "tgtIdx")]
 			case r == 6:
-				tgt = "/" + strings.Repeat("deep/", rapid.IntRange(1, 40).Draw(t, "softDepth")) + "x" // long dangling path
+				tgt = "/" + strings.Repeat("deep/", rapid.IntRange(1, 50).Draw(t, "softDepth")) + "x" // long dangling path
 			}
 			op = hist.Op{K: "soft", Path: path, Target: tgt}
 		case "ext":
@@ -121,6 +132,7 @@ func gen(t *rapid.T) Case {
 		case "densegroup":
 			var links [][2]string
 			k := rapid.IntRange(0, 12).Draw(t, "nlinks")
+			collide := rapid.IntRange(0, 3).Draw(t, "collidingLinkNames") == 0
 			for j := 0; j < k && len(objects) > 0; j++ {
 				tg := objects[rapid.IntRange(0, len(objects)-1).Draw(t, "tgtIdx")]
 				if isGroup[tg] {
@@ -129,7 +141,11 @@ func gen(t *rapid.T) Case {
 					}
 					groupLinks++
 				}
-				links = append(links, [2]string{fmt.Sprintf("l%d", j), tg})
+				lname := fmt.Sprintf("l%d", j)
+				if collide && j < len(collidingNames()) {
+					lname = collidingNames()[j] // pairs of different names with the same lookup3 hash
+				}
+				links = append(links, [2]string{lname, tg})
 			}
 			op = hist.Op{K: "densegroup", Path: path, Links: links}
 		case "dup":
@@ -314,6 +330,22 @@ func run(c Case) vt.Verdict {
 	}
 	return vt.Pass()
 }
+
+// collidingNames: two pairs of different names whose lookup3 hashes are equal (the name index of a dense group keys on it).
+var collidingNames = sync.OnceValue(func() []string {
+	var n []string
+	first := map[uint32]string{}
+	for i := 0; i < 600000 && len(n) < 4; i++ {
+		s := fmt.Sprintf("link%06d", i)
+		h := refimpl.Lookup3([]byte(s), 0)
+		if o, ok := first[h]; ok {
+			n = append(n, o, s)
+		} else {
+			first[h] = s
+		}
+	}
+	return n
+})
 
 func TestProp(t *testing.T) {
 	vt.Run(t, prop, vt.Sub[Case]{Prop: prop, Name: "namespace", Gen: gen, Run: run, Classify: classify}.WithBudget(3000, 12000))
